@@ -411,32 +411,39 @@ pub fn excl_actor<Ret: MkRet>(inst: u8) -> impl FnMut(&mut World, &mut SystemSta
         let run = world.resource_mut::<H>().next_run(inst);
         let prog = world.resource::<H>().prog.clone();
         let ops = prog.insts[inst as usize].script(run);
-        // immediate world operations first
+        // the script in order: `Now` ops act on the world immediately, everything else is queued on the world's command queue
+        // (behind the cleanup the library queued before the body) and is applied at the next flush -- which may well be one
+        // that a later `Now` op of the same body causes
+        let mut err = false;
         for (idx, op) in ops.iter().enumerate()
         {
-            if let Op::Now(w) = op
+            let u = uid(inst, run, idx);
+            match op
             {
-                let u = uid(inst, run, idx);
-                log(Ev::Now(u));
-                exec_wop(world, w, u);
-                log(Ev::NowEnd(u));
+                Op::ReturnErr => { err = true; break; }
+                Op::Now(w) =>
+                {
+                    log(Ev::Now(u));
+                    // What is still queued is flushed before the world is touched. Running a system command or sending a system
+                    // event directly does that itself, first thing (runner entry / `World::spawn`), and C12 relies on it; for the
+                    // other operations the point at which Bevy flushes relative to their own work is Bevy's business, so the body
+                    // flushes explicitly, as careful user code would.
+                    if !matches!(w, WOp::Run(_) | WOp::SysEvent(..)) { world.flush(); }
+                    exec_wop(world, w, u);
+                    log(Ev::NowEnd(u));
+                }
+                _ =>
+                {
+                    world.resource_scope(|world: &mut World, mut h: Mut<H>|
+                    {
+                        let mut c = world.commands();
+                        c.queue(move |_: &mut World| log(Ev::Apply(u)));
+                        let _ = interp_basic(op, u, &mut c, &mut h);
+                        c.queue(move |_: &mut World| log(Ev::ApplyEnd(u)));
+                    });
+                }
             }
         }
-        // then queue commands on the world's queue (applied after the body returns, behind the cleanup)
-        let mut err = false;
-        world.resource_scope(|world: &mut World, mut h: Mut<H>|
-        {
-            let mut c = world.commands();
-            for (idx, op) in ops.iter().enumerate()
-            {
-                if matches!(op, Op::Now(_)) { continue; }
-                if matches!(op, Op::ReturnErr) { err = true; break; }
-                let u = uid(inst, run, idx);
-                c.queue(move |_: &mut World| log(Ev::Apply(u)));
-                let _ = interp_basic(op, u, &mut c, &mut h);
-                c.queue(move |_: &mut World| log(Ev::ApplyEnd(u)));
-            }
-        });
         log(Ev::BodyEnd { inst, n: run, err });
         Ret::mk(err)
     }
